@@ -307,6 +307,7 @@ class ObjectTemplate(base.HyperValue, utils.Formattable):
       ValueError if value cannot be encoded by this template.
     """
     children = []
+    child_paths = []
     # NOTE: the `where` clause is bound to the hyper primitives parsed from the
     # template (not to the ones in `self._value`), they are the ones that
     # `dna_spec` and `decode` use.
@@ -324,6 +325,7 @@ class ObjectTemplate(base.HyperValue, utils.Formattable):
         children.append(
             parsed_primitives.get(str(path), template_value).encode(input_value)
         )
+        child_paths.append(str(path))
       elif isinstance(template_value, derived.DerivedValue):
         if self._compute_derived:
           referenced_values = [
@@ -391,6 +393,14 @@ class ObjectTemplate(base.HyperValue, utils.Formattable):
       return template_value
 
     utils.merge_tree(self._value, value, _encode, root_path=self._root_path)
+    # NOTE: a dict in the input is visited in the key order of the input, while
+    # the DNA follows the order of the decision points in the template.
+    order = {str(p): i for i, (p, _) in enumerate(self._hyper_primitives)}
+    children = [
+        c for _, c in sorted(
+            zip(child_paths, children),
+            key=lambda x: order.get(x[0], len(order)))
+    ]
     return geno.DNA(None, children)
 
   def try_encode(self, value: Any) -> Tuple[bool, geno.DNA]:
